@@ -37,7 +37,7 @@ CHECKS = {
  "C10": dict(
   level="model_checking", design="6/C10", engine="sse-trie",
   technique="explicit-state exploration of the trie of all weak orderings (rank patterns) of 2..7/8 points, exact reference (integer S, rational variance and Sen slope) on every state, S-increment relation on every edge, symmetry relations; 4 kernel entry points + accessor",
-  text="All 52608 (598443) rank patterns; tau, p, slope, flag compared with exact values (float32 1 ulp); x->2x+3, x^3, -x, reversal; all-nodata pixels (also nodata=0); all words over three values n=8..9 (11); patterns spread over the whole int16 range; decision-boundary family: for every n<=80 (200) and 8 tie structures the smallest significant and largest non-significant score. Attribute histories of nodata on one long-lived object (depth 3) against a fresh object. Accessor on strided views (transposed time-first cube, Fortran order, every second step).",
+  text="All 52608 (598443) rank patterns; tau, p, slope, flag compared with exact values (float32 1 ulp); x->2x+3, x^3, -x, reversal; all-nodata pixels (also nodata=0); all words over three values n=8..9 (11); patterns spread over the whole int16 range; decision-boundary family: for every n<=80 (200) and 8 tie structures the smallest significant and largest non-significant score. Every pattern n<=7 again as float32 base + step * rank with distinct values 4e-6..6e-5 relative apart (three base/step pairs, both float32 entry points). Attribute histories of nodata on one long-lived object (depth 3) against a fresh object. Accessor on strided views (transposed time-first cube, Fortran order, every second step).",
   note="Threshold guard |p-0.05|>1e-9 never triggers in scope (min 1.3e-3)."),
  "C11": dict(
   level="model_checking", design="6/C11", engine="calendar",
@@ -51,7 +51,7 @@ CHECKS = {
   note="Tolerance 2e-6 absolute (float32 outputs). Float data with decimal fractions: 2e-5 (rounding residue of the single-pass sums), finite and within [-1,1] required."),
  "C16": dict(
   level="exploration", design="6/C16", engine="sse-product",
-  technique="bounded exhaustive enumeration of zone x value assignments for rasters of 1..5/6 pixels x num_zones x dtype, boundary zone sizes 2^24-1, 2^24, 2^24+2, 25M, 1000 zones, all 720 pixel permutations, accessor numpy/dask",
+  technique="bounded exhaustive enumeration of zone x value assignments for rasters of 1..5/6 pixels x num_zones x dtype, boundary zone sizes 2^24-1, 2^24, 2^24+2, 25M, 1000 zones, every number of zones 1..300 (1..1100) and 2^e-1, 2^e, 2^e+1 up to 1025 (65537) with every zone populated x zone-raster dtype / marker x kernel / numpy / dask, all 720 pixel permutations, accessor numpy/dask",
   text="Exact mean (2 ulp of output dtype) and exact count, NaN/0 for empty zones, zone-nodata pixels excluded, rearrangement invariance; zone rasters of every integer dtype with fill values outside int16. Attribute histories of nodata on the value cube and on the zone raster (depth 3). Value rasters of eight dtypes over their whole range; five zone rasters on one lazy cube evaluated in one graph (joint_zones). nodata markers that float32 cannot represent, at the kernel and through the accessor; argument spellings. In-place edits of the cube (NaN / nodata / value) between calls, every order of up to three.",
   note="Large zones use integer-valued pixels (exact float64 sums)."),
  "C18": dict(
